@@ -475,6 +475,12 @@ def build_input(spec):
 E1_PROPS = ("C01", "C02", "C03", "C04", "C05", "C08", "C09", "C10")
 
 
+def _clade_key(nested):
+    """The clades of a tree as a sorted tuple: totally ordered, unlike a frozenset (keys end up
+    in sorted event logs, which must not depend on the hash seed)."""
+    return tuple(sorted(ref.nested_clades(nested)))
+
+
 def _costs_of(rec_input):
     model = _m["model"]
     names = {model.NodeEvent.SPECIATION: "spe", model.NodeEvent.DUPLICATION: "dup",
@@ -682,7 +688,7 @@ def check_outputs(run, slot, algo, policy, outs, where, regime):
         if not slot.binary:
             # solutions of a multifurcating input live on different refinements: the trees they
             # refer to are part of what tells them apart
-            key = (ref.nested_clades(on), ref.nested_clades(sn), key)
+            key = (_clade_key(on), _clade_key(sn), key)
         keys.append(key)
         costs_seen.append(recount)
     if not outs:
@@ -743,7 +749,7 @@ def check_outputs(run, slot, algo, policy, outs, where, regime):
                             run.probe("oracle_overcap")
                             return cost, keyset
                         sols = cres["sols"] if cres["min"] == res["min"] else set()
-                    optimal[ref.nested_clades(on), ref.nested_clades(sn)] = (res["min"], sols)
+                    optimal[_clade_key(on), _clade_key(sn)] = (res["min"], sols)
         run.probe("polytomy_oracle")
         if best == float("inf"):
             run.check(not outs, ("C08", prop), "C08.should-be-empty",
